@@ -35,6 +35,7 @@ pub enum Op {
     GJoin { slot: usize, tok: u32 },
     GLeave { tok: u32 },
     GSend { k: String, d: u32 },
+    GLen,
     Pause { us: u32 },
 }
 
@@ -171,7 +172,7 @@ pub fn generate(seed: u64, class: u32) -> Program {
                 a.post_ok = !r.chance(15);
                 a.prestop_ok = !r.chance(5);
                 a.poststop_ok = !r.chance(5);
-                a.pre_delay = *r.pick(&[0, 0, 100, 500, 1500]);
+                a.pre_delay = *r.pick(&[0, 100, 500, 1500, 3000]);
                 a.sup = a.name.is_some() && r.chance(40);
                 actors.push(a);
             }
@@ -192,16 +193,16 @@ pub fn generate(seed: u64, class: u32) -> Program {
                 threads[t].push(Op::Spawn { slot });
             }
             for t in 0..nt {
-                let extra = r.range(2, 6);
+                let extra = r.range(3, 7);
                 for _ in 0..extra {
                     let slot = r.below(n as u64) as usize;
                     let op = match r.below(100) {
-                        0..=44 => Op::Lookup {
+                        0..=54 => Op::Lookup {
                             name: r.pick(&names).to_string(),
                             send: if r.chance(50) { Some(cast_kind(&mut r)) } else { None },
                         },
-                        45..=64 => Op::Stop { slot },
-                        65..=84 => Op::Send { slot, k: cast_kind(&mut r), d: delay(&mut r) },
+                        55..=69 => Op::Stop { slot },
+                        70..=84 => Op::Send { slot, k: cast_kind(&mut r), d: delay(&mut r) },
                         85..=92 => Op::Call { slot, k: call_kind(&mut r), d: 0 },
                         _ => Op::Pause { us: *r.pick(&[10, 100, 500]) },
                     };
@@ -232,7 +233,8 @@ pub fn generate(seed: u64, class: u32) -> Program {
                 for _ in 0..len {
                     let slot = r.below(n as u64) as usize;
                     s.push(match r.below(100) {
-                        0..=49 => Op::GSend { k: cast_kind(&mut r), d: *r.pick(&[0, 200, 800, 2000]) },
+                        0..=44 => Op::GSend { k: cast_kind(&mut r), d: *r.pick(&[0, 200, 800, 2000]) },
+                        45..=49 => Op::GLen,
                         50..=59 => {
                             tok += 1;
                             Op::GJoin { slot, tok: tok - 1 }
@@ -278,7 +280,8 @@ pub fn generate(seed: u64, class: u32) -> Program {
                         }
                         70..=74 => Op::GLeave { tok: r.below(tok.max(1) as u64) as u32 },
                         75..=86 => Op::Lookup { name: "x".into(), send: if r.chance(50) { Some("cast".into()) } else { None } },
-                        87..=93 => Op::Stop { slot },
+                        87..=91 => Op::Stop { slot },
+                        92..=95 => Op::GLen,
                         _ => Op::Pause { us: *r.pick(&[10, 100, 500]) },
                     });
                 }
